@@ -482,7 +482,7 @@ func checkLoadAndVerify(c *fw.Ctx) {
 	}
 	sigs := fw.CallsTo(fn, false, fw.NameIs("gmsl.VerifyAllEventSignatures"))
 	if len(sigs) != 1 {
-		c.Fail(rule, "signatures are verified in bulk once", c.P.Pos(fn.Pos()), fmt.Sprintf("%d sites", len(sigs)))
+		c.Undecided(rule, "signatures are verified in bulk once", fmt.Sprintf("%d call sites of VerifyAllEventSignatures in LoadAndVerify itself", len(sigs)))
 		return
 	}
 	verified := sigs[0].Common().Args[1]
@@ -500,7 +500,8 @@ func checkLoadAndVerify(c *fw.Ctx) {
 			if !reachesInstr(sigs[0].(ssa.Instruction), ia) {
 				continue
 			}
-			if ia.X == verified {
+			// the same value, or the same variable read again (a field of a result object)
+			if ia.X == verified || fw.Sig(ia.X) == fw.Sig(verified) {
 				aligned++
 			} else {
 				other++
